@@ -49,6 +49,19 @@ pub fn hard_kind(code: u8) -> io::ErrorKind {
     }
 }
 
+/// Raw OS error numbers some hard write errors carry (the way a real descriptor fails): EIO, ENXIO
+/// (= ERROR_INVALID_HANDLE on Windows), EBADF, ENOSPC, EPIPE.  Codes 10.. of `FaultKind::Hard`.
+const OS_CODES: [i32; 5] = [5, 6, 9, 28, 32];
+
+/// The error a `FaultKind::Hard(code)` write fault raises.
+pub fn hard_write_error(code: u8) -> io::Error {
+    if code >= 10 {
+        io::Error::from_raw_os_error(OS_CODES[(code as usize - 10) % OS_CODES.len()])
+    } else {
+        mk_err(hard_kind(code))
+    }
+}
+
 #[derive(Clone, Copy, Debug, PartialEq, Eq)]
 pub struct Fault {
     pub at: usize,
@@ -97,6 +110,9 @@ pub struct SimState {
     /// `write_vectored` gathers all slices in one call (what `File`, `Vec` and the std handles
     /// do); otherwise it is the `io::Write` default, which offers the first non-empty slice only
     pub gather: bool,
+    /// code of the hard write fault that fired in the current call, if any (so that the error
+    /// handed to the code under test carries its raw OS number)
+    last_hard: Option<u8>,
 }
 
 impl SimState {
@@ -125,6 +141,7 @@ impl SimState {
             implicit_cuts: 0,
             fired_at: Vec::new(),
             gather: false,
+            last_hard: None,
         }
     }
 
@@ -230,8 +247,9 @@ impl SimState {
                     }
                     FaultKind::Hard(c) => {
                         self.fired_hard += 1;
-                        let k = hard_kind(c);
+                        let k = hard_write_error(c).kind();
                         self.raised.push(k);
+                        self.last_hard = Some(c);
                         return Err(k);
                     }
                     FaultKind::FlushErr(_) => unreachable!(),
@@ -244,6 +262,14 @@ impl SimState {
         Ok(limit)
     }
 
+    fn to_io(&mut self, res: Result<usize, io::ErrorKind>) -> io::Result<usize> {
+        let hard = self.last_hard.take();
+        res.map_err(|k| match hard {
+            Some(c) => hard_write_error(c),
+            None => mk_err(k),
+        })
+    }
+
     pub fn do_write(&mut self, buf: &[u8]) -> io::Result<usize> {
         self.step();
         let res = self.decide(buf.len());
@@ -251,7 +277,7 @@ impl SimState {
             self.accepted.extend_from_slice(&buf[..n]);
         }
         self.log(InnerEvent::Write { offered: buf.len(), result: res });
-        res.map_err(mk_err)
+        self.to_io(res)
     }
 
     /// A gathering vectored write: one call, one decision over the total, the accepted count runs
@@ -272,7 +298,7 @@ impl SimState {
             }
         }
         self.log(InnerEvent::Write { offered: total, result: res });
-        res.map_err(mk_err)
+        self.to_io(res)
     }
 
     pub fn do_colored(&mut self, fg: u8, bg: u8, buf: &[u8]) -> io::Result<usize> {
@@ -283,7 +309,7 @@ impl SimState {
             self.tags.extend(std::iter::repeat((fg, bg)).take(n));
         }
         self.log(InnerEvent::Colored { fg, bg, offered: buf.len(), result: res });
-        res.map_err(mk_err)
+        self.to_io(res)
     }
 
     pub fn do_flush(&mut self) -> io::Result<()> {
